@@ -311,7 +311,8 @@ fn exec_c05(case: &Case05, obs: &mut Obs) -> Result<(), Failure> {
                             }
                         }
                     }
-                    if changed > 0 {
+                    // (u64::MAX: a family member that is decoded exactly once)
+                    if changed > 0 && *dc_seed != u64::MAX {
                         obs.count("probe:dont-care-octets-rerandomised");
                         let again = match decode_msg(&b2, Some(o), reader, false) {
                             Ok(r) => r.result,
@@ -690,13 +691,15 @@ impl Scenario for C05 {
                 let base = (*wl.pick(&small)).clone();
                 let n = wl.urange(3, 6);
                 let o = wl.below(8) as u8;
+                // half of the families decode each member exactly once
+                let once = wl.bool();
                 let items: Vec<Case05> = related_inputs(&mut wl, &base, n)
                     .into_iter()
                     .map(|bytes| Case05::Msg {
                         bytes,
                         opts: if wl.chance(3, 4) { o } else { wl.below(8) as u8 },
                         reader: ReaderCfg::Real,
-                        dc_seed: 0,
+                        dc_seed: if once { u64::MAX } else { 0 },
                     })
                     .collect();
                 Some(Case05::Family(items))
@@ -711,7 +714,7 @@ impl Scenario for C05 {
                 bytes: spec_encode(m),
                 opts: o,
                 reader: ReaderCfg::Real,
-                dc_seed: 0,
+                dc_seed: u64::MAX,
             };
             let mut items = vec![mk(&x, o)];
             if wl.chance(1, 3) {
